@@ -220,6 +220,41 @@ CLAIMED = {
         "technique": "finite-domain exhaustiveness, abstract interpretation, control "
                      "dependence",
     },
+    "C11": {
+        "text": "Decides agreement of the Linux kind table with _common.conn_tmap (11 "
+                "kinds, (family,type) sets), validation-before-platform in both entry "
+                "points, the /proc/net column of every slot (laddr 1, raddr 2, state 3, "
+                "inode 9; unix type 4, inode 6, path 7 through a bounded split; header "
+                "skipped; port hexadecimal; port 0 -> ()), the TCP state table, NONE for "
+                "non-stream, owner/filter structure and the pconn/sconn slot order. "
+                "Hex/endianness address decoding is not decided.",
+        "note": "Trusted: /proc/net layouts and tcp_states.h (oracle tables); interpreter "
+                "subset.",
+        "technique": "table agreement, CFG dominance, abstract interpretation (provenance)",
+    },
+    "C12": {
+        "text": "Decides only structural necessary conditions: os.readlink's single "
+                "call site and the NUL / ' (deleted)' clean-up, exe()/cwd() fallback, "
+                "cmdline's separator choice / trailing-separator removal / zombie check, "
+                "parse_environ_block's stop-and-progress rule and its '=' test, the "
+                "guards of the name() extension and of the exe() guess, single-writer of "
+                "the exe cache. Separator heuristics on real argv data and byte decoding "
+                "are value-level and not decided.",
+        "note": "Trusted: TASK_COMM_LEN = 16; interpreter subset.",
+        "technique": "who-may-call, abstract interpretation, loop-progress rule, control "
+                     "dependence",
+    },
+    "C19": {
+        "text": "Decides units of every temperature/threshold (m°C/1000, including the "
+                "requirement that a loop-carried value is a unit fixed point), cpufreq "
+                "kHz/1000, the Fahrenheit form, per-entry OSError tolerance of reading-"
+                "file reads, threshold back-fill, battery percent/secsleft forms and the "
+                "UNLIMITED/UNKNOWN/None conventions, cpu_freq mean, cpu_count < 1 -> "
+                "None. Directory layouts of real hardware are not exercised.",
+        "note": "Trusted: sysfs ABI units by file suffix; interpreter subset.",
+        "technique": "abstract interpretation (units with loop fixed point, forms), "
+                     "handler inventory",
+    },
 }
 
 NOT_APPLICABLE = {}
